@@ -406,8 +406,9 @@ class Discharger:
                 if cn and cn.endswith("RangeInclusive::<Idx>::new") and len(ca) >= 2 and ca[0] in ("c:0", "c:1") and ca[1] == "c:9999":
                     return True
                 # a constant range is promoted: its construction lives in one of the function's promoted bodies
+                owners = {fn.name} | {bl.get("inl_from") for bl in fn.blocks if bl.get("inl_from")}
                 for pname, pf in self.prog.promoted.items():
-                    if not pname.startswith(fn.name + "::promoted["):
+                    if not any(pname.startswith(o_ + "::promoted[") for o_ in owners):
                         continue
                     for bl in pf.blocks:
                         tt = bl["term"]
